@@ -129,6 +129,13 @@ def stage(prop, tag, seed, cap=None, feat=None):
         for fn in fns_:
             if fn == "tests.rs":
                 open(os.path.join(dp, fn), "w").write("// emptied in the staged copy (test-only module)\n")
+            elif fn.endswith(".rs"):
+                # the crate's collections are the model table in this build (import twins in utils/private.rs and
+                # hot_reloading/dependencies.rs); a change that names std's entry type elsewhere gets the model's
+                fp = os.path.join(dp, fn)
+                src = open(fp).read()
+                if "std::collections::hash_map::Entry" in src and "#[cfg(not(kani))]" not in src:
+                    open(fp, "w").write(src.replace("std::collections::hash_map::Entry", "crate::utils::model_collections::Entry"))
     shutil.rmtree(os.path.join(root, "repo", "examples"), ignore_errors=True)
     os.makedirs(os.path.join(root, "repo", ".cargo"), exist_ok=True)
     cfg = ["[net]", "offline = true", "[patch.crates-io]"]
